@@ -6,7 +6,7 @@ use std::io::Write;
 use std::sync::{Arc, Mutex};
 
 use micro_http::{
-    Encoding, EndpointHandler, Headers, HttpHeaderError, HttpRoutes, MediaType, Method, Request, RequestError, Response,
+    Body, Encoding, EndpointHandler, Headers, HttpHeaderError, HttpRoutes, MediaType, Method, Request, RequestError, Response,
     StatusCode, Version,
 };
 
@@ -520,10 +520,82 @@ fn c15_name_edits_enum(_tier: Tier, shard: u64, nshards: u64, f: &mut dyn FnMut(
     }
 }
 
+/// the same rules seen through a connection: a generated header block is put behind a request
+/// line (and in front of the body it declares), fed to an `HttpConnection` under a drawn read
+/// schedule, and what the connection delivers or rejects is compared with the reference parser,
+/// which applies the header rules to the whole block (last acceptable Content-Length, flags by
+/// any occurrence, custom entries, fatal vs tolerated faults) and the payload limit to the final
+/// Content-Length only
+fn c15_conn(input: &Input, obs: &mut Obs) -> Result<(), Fail> {
+    use crate::props::conn::{ref_bounds, run_focus, sched_from_src, F_C01};
+    let mut s = Src::new(input.bytes());
+    let n = s.below(7);
+    let mut labels = Vec::new();
+    let mut lines = Vec::new();
+    for _ in 0..n {
+        let mut l = c15_line(&mut s, &mut labels);
+        while let Some(i) = l.windows(2).position(|w| w == b"\r\n") {
+            l.insert(i + 1, b'\t');
+        }
+        if !l.is_empty() {
+            lines.push(l);
+        }
+    }
+    let limit = [None, None, Some(5usize), Some(100), Some(4096)][s.below(5)];
+    let l_eff = limit.unwrap_or(DEFAULT_LIMIT);
+    let mut stream = [&b"PUT /h HTTP/1.1\r\n"[..], b"PATCH /h HTTP/1.0\r\n", b"GET /h HTTP/1.1\r\n"][s.weighted(&[5, 3, 2])].to_vec();
+    let mut model = RefHeaders::default();
+    let mut fatal = false;
+    for l in &lines {
+        stream.extend_from_slice(l);
+        stream.extend_from_slice(b"\r\n");
+        if !fatal {
+            if let LineClass::Fatal(_) = href_line(&mut model, l) {
+                fatal = true;
+            }
+        }
+    }
+    stream.extend_from_slice(b"\r\n");
+    if !fatal && (model.content_length as usize) <= l_eff && model.content_length <= 300 {
+        stream.extend(filler(0, s.u8(), model.content_length as usize));
+        obs.label("block_accepted_body_supplied");
+    }
+    if s.chance(128) {
+        stream.extend_from_slice(b"GET /after HTTP/1.1\r\n\r\n");
+    }
+    let mut seen: BTreeMap<String, usize> = BTreeMap::new();
+    for l in &lines {
+        if let Ok(t) = std::str::from_utf8(l) {
+            if let Some(i) = t.find(':') {
+                *seen.entry(trim_ws(&t[..i]).to_ascii_lowercase()).or_insert(0) += 1;
+            }
+        }
+    }
+    if seen.get("content-length").copied().unwrap_or(0) >= 2 {
+        labels.push("content_length_repeated");
+    }
+    let (reqs, end) = ref_parse(&stream, buf_size(), l_eff);
+    let bounds = ref_bounds(&stream, &reqs);
+    let r = {
+        let mut sch = sched_from_src(&mut s, &stream, &bounds, 4);
+        run_focus("C15", &F_C01, &stream, &reqs, &end, limit, false, &mut sch)?
+    };
+    let _ = r;
+    for l in labels {
+        obs.label(l);
+    }
+    obs.nontrivial = !obs.labels.is_empty();
+    if obs.want_render {
+        obs.render = format!("limit={:?} stream=\"{}\"", limit, esc(&stream));
+    }
+    Ok(())
+}
+
 fn c15_plan(tier: Tier) -> Vec<Job> {
     let q = tier == Tier::Quick;
     vec![
         Job { sub: "blocks", kind: JobKind::Pbt { cases: if q { 1_000_000 } else { 15_000_000 }, max_len: 160 }, smallbuf: false },
+        Job { sub: "conn", kind: JobKind::Pbt { cases: if q { 200_000 } else { 4_000_000 }, max_len: 200 }, smallbuf: false },
         Job { sub: "pairs", kind: JobKind::Enum { f: c15_pairs_enum, bound: "all ordered pairs (thorough: triples) of 35 curated header lines x 3 block terminators" }, smallbuf: false },
         Job { sub: "numbers", kind: JobKind::Enum { f: c15_numbers_enum, bound: "every Content-Length value 0..70143 (thorough: 0..2^20-1) in the plain spelling, 0..4095 in four other spellings (no space, '+', leading zero, '-'), and blocks around 2^31, 2^32, 10^9, 10^10, 2^63" }, smallbuf: false },
         Job { sub: "name_edits", kind: JobKind::Enum { f: c15_name_edits_enum, bound: "every single-byte substitution (256 values), insertion (256 values) and deletion at every position of each of the 7 recognised names, as a line of its own and behind another line" }, smallbuf: false },
@@ -534,7 +606,7 @@ fn c15_plan(tier: Tier) -> Vec<Job> {
 pub fn c15() -> PropDef {
     PropDef {
         id: "C15",
-        subs: vec![("blocks", c15_blocks), ("pairs", c15_pairs), ("cases", c15_cases), ("raw", crate::props::raw::c15_raw), ("numbers", c15_numbers), ("name_edits", c15_name_edits)],
+        subs: vec![("blocks", c15_blocks), ("pairs", c15_pairs), ("cases", c15_cases), ("raw", crate::props::raw::c15_raw), ("numbers", c15_numbers), ("name_edits", c15_name_edits), ("conn", c15_conn)],
         plan: c15_plan,
         rule: "case = header block of 0..6 lines (recognised names in letter-case patterns and SP/HTAB/Unicode/CR/LF padding with supported/unsupported/malformed values, other names, 0/1/several colons, invalid UTF-8) plus one raw Accept-Encoding value; oracle = independent statement of the header rules, checked three ways (block vs rules, block vs line-by-line fold, per-line outcome class) + Encoding::try_from vs identity rule; non-trivial = a recognised name with non-canonical case or padding, a duplicate name, or a faulty line",
         assumptions: vec![
@@ -889,7 +961,24 @@ fn c16_misc(_input: &Input, obs: &mut Obs) -> Result<(), Fail> {
         for v in 0..2u8 {
             for k in (1..=20usize).chain([usize::MAX]) {
                 for interrupt_first in [false, true] {
-                    let resp = Response::new(version_of(v), status_of(*code));
+                    // the status given at construction is the one on the wire, whatever is done to
+                    // the response afterwards (body set, replaced by an empty one, length removed)
+                    let mut resp = Response::new(version_of(v), status_of(*code));
+                    match k.wrapping_add(interrupt_first as usize) % 4 {
+                        1 => resp.set_body(Body::new("x")),
+                        2 => {
+                            resp.set_body(Body::new("some text"));
+                            resp.set_body(Body::new(""));
+                        }
+                        3 => {
+                            resp.set_body(Body::new("{}"));
+                            resp.set_content_type(MediaType::PlainText);
+                        }
+                        _ => {}
+                    }
+                    if resp.status() != status_of(*code) {
+                        return Err(Fail::new("C16:status", format!("a response created with status {} reports {:?}", code, resp.status())));
+                    }
                     let mut sink = Drip { out: Vec::new(), k, interrupt_first };
                     n += 1;
                     if let Err(e) = resp.write_all(&mut sink) {
@@ -1144,8 +1233,8 @@ impl EndpointHandler<u32> for Rec {
     }
 }
 
-const PATHS: [&str; 12] = ["", "/", "/a", "/a/", "/a/b", "/ab", "/a:b", ":", "/GET:/a", "/api/a", "/fwd/http://up/a", "/\u{e9}/a"];
-const PREFIXES: [&str; 4] = ["", "/api", "/a", "/api/"];
+const PATHS: [&str; 13] = ["", "/", "/a", "/a/", "/a/b", "/ab", "/a:b", ":", "/GET:/a", "/api/a", "/fwd/http://up/a", "/\u{e9}/a", "//a"];
+const PREFIXES: [&str; 5] = ["", "/api", "/a", "/api/", "/"];
 
 fn c17_run(prefix: &str, regs: &[(u8, usize)], reqs: &[(u8, String)], server_id: &str) -> Result<(usize, usize, usize), Fail> {
     let log = Arc::new(Mutex::new(Vec::new()));
@@ -1497,7 +1586,7 @@ fn c17_plan(tier: Tier) -> Vec<Job> {
         Job { sub: "tables", kind: JobKind::Pbt { cases: if q { 300_000 } else { 6_000_000 }, max_len: 80 }, smallbuf: false },
         Job { sub: "long", kind: JobKind::Enum { f: c17_long_enum, bound: "sibling routes on paths of every length 2..399 (thorough: ..879), with and without a prefix, probed with the exact path, one-byte extensions, a truncation, 3 methods, origin and absolute form" }, smallbuf: false },
         Job { sub: "authority", kind: JobKind::Enum { f: c17_authority_enum, bound: "absolute-form requests with an authority of every length 0..300 and within 24 of 2^10, 2^12, 2^15, 2^16, 2^17 (thorough: also 2^20, 2^24), ASCII and two-byte characters, x 2 prefixes x 6 paths" }, smallbuf: false },
-        Job { sub: "small", kind: JobKind::Enum { f: c17_small_enum, bound: "4 prefixes x all ordered route tables of <= 2 (quick) / <= 3 (thorough) registrations over 3 methods x 10 paths (duplicates included) x all requests over the same alphabet in origin-form and three absolute forms (one with a non-ASCII authority), with and without the prefix" }, smallbuf: false },
+        Job { sub: "small", kind: JobKind::Enum { f: c17_small_enum, bound: "5 prefixes x all ordered route tables of <= 2 (quick) / <= 3 (thorough) registrations over 3 methods x 13 paths (one starting with //) (duplicates included) x all requests over the same alphabet in origin-form and three absolute forms (one with a non-ASCII authority), with and without the prefix" }, smallbuf: false },
     ]
 }
 
@@ -2006,7 +2095,12 @@ pub fn c14_check_sched(slice: &[u8], cuts: &[usize], idle: bool, obs: &mut Obs) 
     // "within the line and payload limits"); otherwise it is given the largest one.
     let (_, end_default) = ref_parse(slice, b, DEFAULT_LIMIT);
     let within_default = !matches!(end_default, End::Error { err: RefErr::Payload { .. }, .. });
-    let limit = if within_default { DEFAULT_LIMIT } else { u32::MAX as usize };
+    // "within the payload limit": the default when the slice fits it, otherwise one that no 32-bit
+    // declaration exceeds (2^32-1, 2^32, 2^32+10 or usize::MAX, picked by the slice itself)
+    let big = [u32::MAX as usize, 1usize << 32, (1usize << 32) + 10, usize::MAX][(fnv64(slice) % 4) as usize];
+    let large_anyway = fnv64(slice) % 16 == 5;
+    let within_default = within_default && !large_anyway;
+    let limit = if within_default { DEFAULT_LIMIT } else { big };
     let (reqs, end) = ref_parse(slice, b, limit);
     // feed the connection with whole-window reads, limit >= any declared length
     let mut run = ConnRun::new(slice.to_vec(), if within_default { None } else { Some(limit) }, false);
